@@ -118,6 +118,12 @@ def ops_for(rng, nprng, z, pool):
     out.append(('time_shift', lambda: pb.time_shift(z, shape_arr, crop=rng.random() < 0.5), [shape_arr]))
     q = (sh / z.sample_rate).to(u.ms)
     out.append(('time_shift_quantity', lambda: pb.time_shift(z, q), [q]))
+    if z.sample_shape:
+        # an array Quantity whose unit is exactly the reciprocal of the sample-rate unit (conversion factor 1: to_value gives a view)
+        qa = (np.full(z.sample_shape[:1], sh, dtype=float) / z.sample_rate.value) * (1 / z.sample_rate.unit)
+        out.append(('time_shift_quantity_array', lambda: pb.time_shift(z, qa, crop=rng.random() < 0.5), [qa]))
+        qs = (np.full(z.sample_shape[:1], sh, dtype=float) / z.sample_rate.to_value(u.Hz)) * u.s
+        out.append(('time_shift_seconds_array', lambda: pb.time_shift(z, qs), [qs]))
     out.append(('time_shift_bad', lambda: pb.time_shift(z, np.ones(z.shape + (1,))), []))
     t = rng.choice([2, 2.5, 3 + 1e-10, 0, 1.75])
     out.append(('snippet', lambda: pb.snippet(z, t, rng.randint(0, L - 4)), []))
